@@ -418,6 +418,28 @@ func (w *Wallet) syncWithChain(birthdayStamp *waddrmgr.BlockStamp) error {
 		log.Debug("Chain backend synced to tip!")
 	}
 
+	// An earlier attempt that was interrupted afterwards (by locking the
+	// wallet during the recovery, for instance) may already have found and
+	// persisted the birthday block. The caller retries with the stamp it
+	// had before that attempt, so use the persisted one: the synced-to
+	// block must not be reset to it again.
+	if birthdayStamp == nil {
+		err := walletdb.View(w.db, func(tx walletdb.ReadTx) error {
+			ns := tx.ReadBucket(waddrmgrNamespaceKey)
+			block, _, err := w.Manager.BirthdayBlock(ns)
+			switch {
+			case err == nil:
+				birthdayStamp = &block
+			case !waddrmgr.IsError(err, waddrmgr.ErrBirthdayBlockNotSet):
+				return err
+			}
+			return nil
+		})
+		if err != nil {
+			return err
+		}
+	}
+
 	// If we've yet to find our birthday block, we'll do so now.
 	if birthdayStamp == nil {
 		var err error
